@@ -69,6 +69,7 @@ INPUTS = [
     ("sink-call", assemble(call_sink + [op("STOP")])),
     ("sink-call-popped", assemble(call_sink + [op("POP"), op("NONE"), op("STOP")])),
     ("sink-import-only", assemble(G("verif_c02_sink", "hit") + [op("STOP")])),
+    ("eval-then-sink-call", assemble(G("builtins", "eval") + [u("1"), op("TUPLE1"), op("REDUCE"), op("POP")] + call_sink + [op("STOP")])),
     ("sink-via-eval-name", assemble(G("builtins", "getattr") + G("verif_c02_sink", "hit") + [u("__call__"), op("TUPLE2"), op("REDUCE"), op("EMPTY_TUPLE"), op("REDUCE"), op("STOP")])),
     # analysis raises (the stock unpickler does not): an opcode fickling does not model / a state its interpreter rejects, after the sink call
     ("sink-then-unmodelled-FLOAT", assemble(call_sink + [op("POP")]) + b"F1.5\n."),
